@@ -12,9 +12,10 @@ use crate::world::{Link, World};
 
 /// The path universe. Two universes exist (selected process-wide with `select_paths`, never while
 /// histories are running): 0 = {/, /a, /a/b, /c} (root, parent/child, unrelated sibling) and
-/// 1 = {/, /a/b, /a/b/d, /a/bc} (a never-registered intermediate node /a, three levels, and a
-/// sibling whose name has the other's as a string prefix). Index 0 is the root in both.
-pub(crate) const PATH_SETS: [[&str; 4]; 2] = [["/", "/a", "/a/b", "/c"], ["/", "/a/b", "/a/b/d", "/a/bc"]];
+/// 1 = {/, /a, /a/b/d, /a/bc} (an object with a grandchild below a never-registered
+/// intermediate node /a/b, three levels, and a sibling whose name has that node's name as a
+/// string prefix). Index 0 is the root in both.
+pub(crate) const PATH_SETS: [[&str; 4]; 2] = [["/", "/a", "/a/b", "/c"], ["/", "/a", "/a/b/d", "/a/bc"]];
 static PATH_SET: std::sync::atomic::AtomicUsize = std::sync::atomic::AtomicUsize::new(0);
 pub(crate) fn select_paths(set: usize) {
     assert!(set < PATH_SETS.len());
